@@ -558,3 +558,67 @@ Proof.
   - exact (prompt_sound_transcript A ops p Happs (builder_validb_valid p Eb) apps ins Hok).
   - unfold pmonitor. rewrite Eb. reflexivity.
 Qed.
+
+(* ------------------------------------------------------------------------------------------ *)
+(* the statements in terms of pmon_poll (for Properties/C01.v)                                   *)
+
+Lemma prompt_poll_step (A : Type) (ops : app_ops A) (p : params) :
+  apps_total A ops -> builder_valid p ->
+  forall f apps buf tl q now busy nb f' o apps' calls,
+  PB A p f apps buf tl q -> tl < now -> time_ok now -> all_bytes nb ->
+  poll ops f now (mkPhyIn busy (buf ++ nb)) apps = Ok (f', o, apps', calls) ->
+  snd (pmon_poll p q (poll_event now busy (buf ++ nb) f' o calls) (psr_flag f')) = [] /\
+  PB A p f' apps' (rx_left o) now (fst (pmon_poll p q (poll_event now busy (buf ++ nb) f' o calls) (psr_flag f'))).
+Proof.
+  intros Happs Hbv f apps buf tl q now busy nb f' o apps' calls HB Hlt Hnow Hnb E.
+  rewrite pmon_poll_eq. cbn [fst snd]. exact (pb_poll A ops p Happs Hbv _ _ _ _ _ _ _ _ _ _ _ _ HB Hlt Hnow Hnb E).
+Qed.
+
+Lemma prompt_invariant_init (A : Type) (p : params) : builder_valid p ->
+  forall (apps : list A) f0, fdl_new p = Ok f0 -> PB A p f0 apps [] 0 (pmon_reset (view_of f0) (psr_flag f0) 0).
+Proof. intros Hbv apps f0 E0. apply pb_new; [exact Hbv|exact E0|constructor|lia|reflexivity]. Qed.
+
+(* ------------------------------------------------------------------------------------------ *)
+(* non-vacuity                                                                                  *)
+
+(* (a) a model history (station 3, 19.2 kbit/s, no applications) that claims the token on a silent bus and starts the
+   post-claim scan: polls while the own claim token is still on the wire, polls inside the synchronisation pause
+   (the gated state ClaimToken, nothing happens, the monitor waits), then the next transmission - accepted. *)
+Definition ex_prompt_params : params := mkParams 3 B19200 100 80000 1 16 1 11 None.
+Definition ex_prompt_inputs : list minput :=
+  [InApi ApiOnline; InPoll 834 false []; InPoll 70000 false []; InPoll 70100 false []; InPoll 71000 false [];
+   InPoll 72700 false []; InPoll 72800 false []; InPoll 73000 false []; InPoll 75000 false []; InPoll 76000 false [];
+   InPoll 78000 false []; InPoll 79000 false []; InPoll 82000 false []].
+
+Definition poll_summary (e : event * bool) : option (Z * state_kind * bool) :=
+  match fst e with
+  | EPoll s => Some (s_now s, v_kind (s_view s), match s_tx s with Some _ => true | None => false end)
+  | _ => None
+  end.
+
+Lemma prompt_example :
+  builder_validb ex_prompt_params = true /\ ins_ok 0 ex_prompt_inputs /\
+  pmonitor ex_prompt_params (pmodel_transcript unit unit_app_ops ex_prompt_params [] ex_prompt_inputs) = [] /\
+  map poll_summary (pmodel_transcript unit unit_app_ops ex_prompt_params [] ex_prompt_inputs) =
+    [None; None; Some (834, KListenToken, false);
+     Some (70000, KClaimToken, true); Some (70100, KClaimToken, false); Some (71000, KClaimToken, false);
+     Some (72700, KClaimToken, false); Some (72800, KClaimToken, false); Some (73000, KClaimToken, false);
+     Some (75000, KClaimToken, true); Some (76000, KClaimToken, false); Some (78000, KClaimToken, false);
+     Some (79000, KClaimToken, true); Some (82000, KClaimToken, false)].
+Proof.
+  split; [reflexivity|]. split.
+  { cbn. unfold time_ok, all_bytes. repeat split; try lia; repeat constructor. }
+  split; vm_compute; reflexivity.
+Qed.
+
+(* (b) the monitor is not trivially silent: a station that sits in PassToken on a silent bus for longer than a slot
+   time without doing anything is reported *)
+Definition ex_stuck_view : view := mkView ConnOnline true KPassToken 4 2 true [2; 3; 4] false false.
+Definition ex_stuck_events : list (event * bool) :=
+  [(EApi ApiNew ex_stuck_view, false);
+   (EPoll (mkPStep 1000 false [] None 0 [] ex_stuck_view), false);
+   (EPoll (mkPStep 7000 false [] None 0 [] ex_stuck_view), false)].
+
+Lemma prompt_monitor_fires :
+  pmonitor ex_prompt_params ex_stuck_events = [(2%nat, P01_reaction_after_slot_time)].
+Proof. vm_compute. reflexivity. Qed.
